@@ -84,7 +84,7 @@ func TestC11(t *testing.T) {
 			}
 		}
 		var stop int32
-		var steadyCalls, overlapped, patchOps int64
+		var steadyCalls, overlapped, patchOps, rejections int64
 		var wg, mg sync.WaitGroup
 		bar := vmon.NewSpinBarrier(M + N)
 		for c := 0; c < N; c++ {
@@ -167,6 +167,43 @@ func TestC11(t *testing.T) {
 				b.Reset()
 			}(m)
 		}
+		// rejecters: goroutines whose configuration goom refuses (origin trampoline for a function whose loop head lies in the bytes to be overwritten), again and again,
+		// each on a target of its own: a refused attempt must neither disturb anybody nor change the target
+		R := 1 + rng.Intn(3)
+		for q := 0; q < R; q++ {
+			mg.Add(1)
+			go func(q int) {
+				defer mg.Done()
+				tgtFn := Rej[q]
+				b := mocker.Create()
+				bar2 := 0
+				for it := 0; it < iters*4; it++ {
+					rejected := false
+					func() {
+						defer func() {
+							if recover() != nil {
+								rejected = true
+							}
+						}()
+						atomic.AddInt64(&writersActive, 1)
+						defer atomic.AddInt64(&writersActive, -1)
+						b.Func(tgtFn).Origin(PhR[q]).Apply(func(a int) int { return -7 })
+					}()
+					atomic.AddInt64(&patchOps, 1)
+					if !rejected {
+						addFail("C11/unfaithful-trampoline-accepted", fmt.Sprintf("rejecter %d: an origin trampoline for a function whose loop head lies in its first 13 bytes was accepted", q))
+						return
+					}
+					if got := tgtFn(4); got != RejOrig(q, 4) {
+						addFail("C11/rejected-apply-changed-target", fmt.Sprintf("rejecter %d: after a refused apply R%d(4) = %d, want %d", q, q, got, RejOrig(q, 4)))
+						return
+					}
+					bar2++
+				}
+				atomic.AddInt64(&rejections, int64(bar2))
+				b.Reset()
+			}(q)
+		}
 		mg.Wait()
 		atomic.StoreInt32(&stop, 1)
 		wg.Wait()
@@ -175,6 +212,7 @@ func TestC11(t *testing.T) {
 		rep.Stat("steady_calls", steadyCalls)
 		rep.Stat("steady_calls_begun_while_a_writer_was_inside_goom", overlapped)
 		rep.Stat("patch_api_operations", patchOps)
+		rep.Stat("refused_configurations_under_concurrency", rejections)
 		rep.Stat("rounds", 1)
 		rep.Class(fmt.Sprintf("mockers%d/callers%d", bkt(M), bkt(N)))
 		// quiescence: everything restored
